@@ -167,7 +167,21 @@ func c19RenderCase(r *fw.Rand, depth, wrap, padEntry, padCallee int, sameFile bo
 		} else {
 			stmt = bad
 		}
-		if lv == 0 && wrap > 0 {
+		if lv == 0 && wrap > 0 && depth%2 == 1 {
+			// two levels of enclosing blocks: outer control flow, inner content block. Accepted: the failing command's own
+			// line or the line of the OUTERMOST enclosing command; the block in between is neither.
+			outerOpen := []string{"{if true}", "{foreach $z in [1]}"}[r.Intn(2)]
+			outerClose := map[string]string{"{if true}": "{/if}", "{foreach $z in [1]}": "{/foreach}"}[outerOpen]
+			l0 := wr(w, outerOpen)
+			wr(w, "  filler text")
+			wr(w, "  "+wrapOpen)
+			wr(w, "    more filler")
+			l2 := wr(w, "    "+stmt)
+			wr(w, "  "+wrapClose)
+			wr(w, outerClose)
+			okLines[l0], okLines[l2] = true, true
+			desc = fmt.Sprintf("line %d (the failing command) or %d (the outermost enclosing command)", l2, l0)
+		} else if lv == 0 && wrap > 0 {
 			l1 := wr(w, wrapOpen)
 			l2 := wr(w, "  "+stmt)
 			wr(w, wrapClose)
